@@ -182,3 +182,30 @@ Proof.
   - injection I2 as <- <-. specialize (Hlow b1 e1 I1). lia.
   - exact (IH e Hr b1 e1 b2 e2 i I1 I2 H1 H2).
 Qed.
+
+(* the chunked overload takes the fast path exactly when the indexed test, applied to the number of chunks,
+   would: size() == 1 || chunksize >= elements  <->  size() == 1 || #chunks <= 1 *)
+Lemma chunks_from_length fuel : forall begin elements chunksize,
+  1 <= chunksize -> 0 <= begin -> elements - begin <= Z.of_nat fuel ->
+  (Z.of_nat (length (chunks_from fuel begin elements chunksize)) <= 1 <-> elements <= begin + chunksize).
+Proof.
+  induction fuel as [|f IH]; intros b el cs Hcs Hb Hf; cbn [chunks_from].
+  - cbn [length]. lia.
+  - unfold src_chunk_continue, src_chunk_next. destruct (Z.ltb_spec b el) as [Hlt|Hge]; [|cbn [length]; lia].
+    cbn [length]. destruct (Z.le_gt_cases el (b + cs)) as [Hle|Hgt].
+    + rewrite chunks_from_done by lia. cbn [length]. lia.
+    + destruct f as [|f']; [lia|].
+      cbn [chunks_from]. unfold src_chunk_continue. destruct (Z.ltb_spec (b + cs) el); [|lia]. cbn [length]. lia.
+Qed.
+
+Lemma s_chunked_inline_consistent size elements chunksize :
+  1 <= chunksize -> 0 <= elements ->
+  chunked_inline size elements chunksize = indexed_inline size (Z.of_nat (length (chunks elements chunksize))).
+Proof.
+  intros Hc He. unfold chunked_inline, indexed_inline, src_chunked_inline, src_indexed_inline.
+  destruct (Z.eqb size 1); [reflexivity|]. cbn [orb].
+  pose proof (chunks_from_length (Z.to_nat elements) src_chunk_begin elements chunksize Hc) as H.
+  unfold src_chunk_begin in *. specialize (H ltac:(lia) ltac:(lia)). fold (chunks elements chunksize) in H.
+  unfold chunks, src_chunk_begin in *.
+  destruct (Z.geb_spec chunksize elements), (Z.leb_spec (Z.of_nat (length (chunks_from (Z.to_nat elements) 0 elements chunksize))) 1); try reflexivity; lia.
+Qed.
